@@ -153,7 +153,11 @@ pub fn ref_round(w: &World, dr: &DayRef, u: usize, c: &Cal, t: i64, max_us: i128
             } else {
                 match tr {
                     Some(b) => Exp::Val(b as i128 * day),
-                    None => Exp::Fail,
+                    // the boundary the rule chooses lies before 0001-01-01 (only the Sunday week of the first six
+                    // days): no value can be returned for it.  The property ("fails only when the chosen boundary
+                    // lies after the maximum") did not foresee this end; failing is what the crate does, and the
+                    // only in-range adjacent boundary is the other conceivable answer.  Both are admitted.
+                    None => Exp::Either(None, nx as i128 * day, true),
                 }
             }
         }
